@@ -231,6 +231,34 @@ ROUND4 = {
 }
 
 
+ROUND5 = {
+    ("Y1", "A"): ("C15", "relaxed mode raises a module-level step limit around its retry and restores it in finally: a mode-1 chain started by another thread in that window gets 15 steps", "thread pool holds unrepairable pairs asked in mode 2 and pairs needing many mode-1 steps"),
+    ("Y1", "B"): ("C18", "variable table cleared only after a successful write: a file failing at the write stage leaks custom properties into the next file", None),
+    ("Y1", "C"): ("C17", "invalid escape sequence in a docstring of the lazily imported optimiser module: SyntaxWarning on stderr at the first make_readable of a process without cached bytecode", "fresh-interpreter default-path windows (no cached bytecode, stdout/stderr/cwd must stay empty)"),
+    ("Y2", "A"): ("C07", "number regex needs a digit before the dot", None),
+    ("Y2", "B"): ("C10", "safe_cube written as x ** 3: OverflowError for chroma >= ~6e102", "finite triples far outside the gamut (chroma up to 1e308, hue up to +-1e6)"),
+    ("Y2", "C"): ("C04", "'delta_e_sequence or DEFAULT': an empty schedule runs the default search", None),
+    ("Y3", "A"): ("C08", "declaration scan breaks as soon as both color and background-color were seen: later repeated declarations ignored", None),
+    ("Y3", "B"): ("C09", "declaration map keyed by selector text: two top-level :root blocks overwrite each other", None),
+    ("Y3", "C"): ("C18", ":root blocks re-serialised only when something was tuned earlier in the run: a ';' appears in a quiet file depending on other files", "a 'quiet' minified sheet (nothing to adjust, no final ';') in every tree"),
+    ("Y4", "A"): ("C19", "html.escape(html.unescape(x)): character references / legacy entity names in user text are decoded", None),
+    ("Y4", "B"): ("C17", "sum(1 for _ in pairs) pre-pass with save_report: one-shot iterables return []", None),
+    ("Y4", "C"): ("C08", "report cards grouped in a dict keyed (file, selector): two adjusted rules with the same selector keep one card", "exact repetitions of a rule (same selector, same declarations) at top level / inside at-rules; cards per selector must equal the rules"),
+    ("Y5", "A"): ("C12", "per-call cache keyed on str() of the arguments", None),
+    ("Y5", "B"): ("C17", "logger.warning on the 'alpha > 1' branch (last-resort handler prints to stderr)", None),
+    ("Y5", "C"): ("C13", "background's original instead of its rgb passed to the parser: hsla text over fractional-float / numeric-string backgrounds", None),
+    ("Y6", "A"): ("C17", "warnings.warn when translucent text meets an unparseable background", "translucent text over unparseable backgrounds in the default-path windows"),
+    ("Y6", "B"): ("C14", "keyword membership tested on a normalised name, looked up un-normalised: 'light blue' raises KeyError", None),
+    ("Y6", "C"): ("C12", "per-call cache keyed on str() of the arguments (save_report=False only)", None),
+    ("Y7", "A"): ("C01", "relaxed decision collapsed to 'smaller dE': when only the one-shot search succeeds the stalled failing colour is returned with True", None),
+    ("Y7", "B"): ("C02", "tie rule on ratios rounded to 2 decimals: a descent candidate a hair below the original is adopted (almost-pure lime / yellow text)", None),
+    ("Y7", "C"): ("C17", "logger.warning on the early return where only the chroma descent reached the target (near-corner text, very_readable)", "gamut-surface default-path windows under very_readable"),
+    ("Y8", "A"): ("C09", "output opened with os.open without O_TRUNC: a longer pre-existing _cm.css leaves a stale tail", None),
+    ("Y8", "B"): ("C18", "inode de-duplication in discovery: hard links / symlinks skipped, dangling symlink aborts the run", None),
+    ("Y8", "C"): ("C08", "per-run cache of identical stylesheet texts: copies are written but neither counted nor reported", "a byte-identical copy of one sheet in every second directory run"),
+}
+
+
 def archive(key, pid, src, v, needs, missed):
     if not os.path.exists(os.path.join(src, v + ".diff")):
         print(key, "missing deliverables")
@@ -270,6 +298,10 @@ def archive(key, pid, src, v, needs, missed):
 
 def main():
     want = sys.argv[1:]
+    if want and want[0] == "round5":
+        for (x, v), (pid, needs, missed) in sorted(ROUND5.items()):
+            archive(f"{pid}-R5{x}{v}", pid, os.path.join("/tmp/seed5", x + ".out"), v, needs, missed)
+        return
     if want and want[0] == "round4":
         for (x, v), (pid, needs, missed) in sorted(ROUND4.items()):
             archive(f"{pid}-R4{x}{v}", pid, os.path.join("/tmp/seed4", x + ".out"), v, needs, missed)
